@@ -117,9 +117,11 @@ Theorem c18_limit_bound : forall n scripts sched,
 Proof. exact lim_bound. Qed.
 Print Assumptions c18_limit_bound.
 
-(* Return answers ErrLimitReturn (1) exactly when nothing is outstanding, and then changes nothing *)
+(* Return answers ErrLimitReturn (1) exactly when nothing is outstanding -- on a limit of 0 always --
+   and then changes nothing *)
 Theorem c18_limit_return_error : forall n s t o, 2 <= o_code o ->
-  exists s', LIM.sstep n s t o = Some (s', if Nat.eqb (LIM.out s) 0 then 1 else 0) /\ (LIM.out s = 0 -> s' = s).
+  exists s', LIM.sstep n s t o = Some (s', if Nat.eqb n 0 || Nat.eqb (LIM.out s) 0 then 1 else 0) /\
+             (n = 0 \/ LIM.out s = 0 -> s' = s).
 Proof. exact lim_return. Qed.
 Print Assumptions c18_limit_return_error.
 
